@@ -61,6 +61,9 @@ type Module struct {
 	fresh  int
 	// paramsTouched: a params op succeeded in the current block
 	paramsTouched bool
+	// modGifts: what accepted swaps delivered to the coinswap module account itself (named as
+	// the recipient: legal, the keeper pays recipients without asking the bank's blocked list)
+	modGifts map[string]*big.Int
 }
 
 func New() *Module { return &Module{pools: map[string]*pool{}, byAddr: map[string]*pool{}} }
@@ -523,6 +526,14 @@ func (m *Module) genSwap(w *engine.World, r *engine.Rand, actor int) *engine.TxP
 			a.Recipient = sdk.AccAddress([]byte(fmt.Sprintf("fresh-recipient-%06d", m.fresh))).String()
 		case 1:
 			a.Recipient = authtypes.NewModuleAddress(authtypes.FeeCollectorName).String()
+		case 3:
+			// the coinswap module account itself, once the module has used it (before that a
+			// transfer would plant an ordinary account at its address: application wiring, see
+			// DESIGN.md section 14)
+			a.Recipient = w.A(actor + 1 + r.Intn(len(w.Actors)-2)).Addr.String()
+			if len(m.pools) > 0 {
+				a.Recipient = engine.ModAddr(cstypes.ModuleName)
+			}
 		case 2:
 			// the reserve account of a pool that is not on the route (a legal, if odd, gift)
 			var off []string
@@ -1074,6 +1085,16 @@ func (m *Module) checkSwap(w *engine.World, op *engine.Op, tx *engine.TxRecord, 
 	}
 	put(ex, sender, a.In, neg(sold))
 	put(ex, a.Recipient, a.Out, bought)
+	if a.Recipient == engine.ModAddr(cstypes.ModuleName) {
+		if m.modGifts == nil {
+			m.modGifts = map[string]*big.Int{}
+		}
+		if m.modGifts[a.Out] == nil {
+			m.modGifts[a.Out] = new(big.Int)
+		}
+		m.modGifts[a.Out].Add(m.modGifts[a.Out], bought)
+		w.Hit("amm.swap_module_account_recipient")
+	}
 	if a.Buy {
 		if bought.Cmp(bigOf(a.OutAmt)) != 0 {
 			w.Violate("C02", "swap/exact-output", "buy order for exactly %s%s delivered %s", a.OutAmt, a.Out, bought)
@@ -1119,8 +1140,23 @@ func (m *Module) OnCommit(w *engine.World) {
 	}
 	m.paramsTouched = false
 	// the module account never keeps anything
-	if d := w.Ledger.Denoms(engine.ModAddr(cstypes.ModuleName)); len(d) > 0 {
-		w.Violate("C02", "module-account-residue", "coinswap module account holds %v after block %d", d, w.Height)
+	// (beyond what swaps named it as the recipient of: those coins are nobody's to take)
+	modAcc := engine.ModAddr(cstypes.ModuleName)
+	denoms := map[string]bool{}
+	for _, d := range w.Ledger.Denoms(modAcc) {
+		denoms[d] = true
+	}
+	for d := range m.modGifts {
+		denoms[d] = true
+	}
+	for _, d := range engine.SortedKeys(denoms) {
+		want := m.modGifts[d]
+		if want == nil {
+			want = new(big.Int)
+		}
+		if have := w.Ledger.Get(modAcc, d); have.Cmp(want) != 0 {
+			w.Violate("C02", "module-account-residue", "coinswap module account holds %s%s after block %d; swaps that named it as their recipient delivered %s", have, d, w.Height, want)
+		}
 	}
 	// pools known to the module and to the harness agree
 	for _, p := range k.GetAllPools(ctx) {
